@@ -1,8 +1,8 @@
 package rules
 
 import (
-	"go/token"
 	"fmt"
+	"go/token"
 	"sort"
 	"strings"
 
@@ -352,7 +352,6 @@ func wantMatches(p *abs.Path, got abs.Value, w Want) string {
 }
 
 func cst(v int64) *int64 { return &v }
-
 
 // writesThrough reports where fn writes into storage reachable from its parameter (a slice): a store into an element, a
 // copy into it, an append that may reuse its spare capacity and is then written, or an in-place cipher call. Pieces of
